@@ -67,10 +67,27 @@ def inner_write(ex, inner_cell, data, how):
     """One write attempt on the underlying writer. `data` is a Content or a Str.
     Returns Result<usize> value. All-or-nothing: Ok(len) or Err(e)."""
     w = inner_cell.v
-    h = ex.natives.get(w.rty, {}).get('Write::write')
-    if h is None:
-        raise Unsupported('underlying writer %s has no Write::write model' % w.rty)
-    return h(ex, [Ref(inner_cell, (), True), data], how)
+    if isinstance(w, Native):
+        h = ex.natives.get(w.rty, {}).get('Write::write')
+        if h is None:
+            raise Unsupported('underlying writer %s has no Write::write model' % w.rty)
+        return h(ex, [Ref(inner_cell, (), True), data], how)
+    # a writer implemented in the crate (the sinks' write adapters): run its MIR on the bytes
+    name = ex.prog.find_impl_method('write', ex.rtype(w), 'Write')
+    if name is None:
+        raise Unsupported('no Write::write for %s' % ex.rtype(w))
+    return ex.call(name, [Ref(inner_cell, (), True), content_as_bytes(data)])
+
+
+def content_as_bytes(data) -> Str:
+    if isinstance(data, Str):
+        return data.as_type('bytes')
+    pieces = []
+    if data.prefix_bytes is not None:
+        pieces.append(Atom('L', data.prefix_bytes))
+    for c in data.chunks:
+        pieces += list(c.pieces)
+    return Str(tuple(pieces), 'bytes')
 
 
 MAX_INTERRUPTED = 2
@@ -136,10 +153,15 @@ def bw_flush(ex, args, callee):
         return r
     cap, inner, content, panicked = _bw(ex, ref).state
     w = inner.v
-    h = ex.natives.get(w.rty, {}).get('Write::flush')
-    if h is None:
-        return ok(UNIT)
-    return h(ex, [Ref(inner, (), True)], callee)
+    if isinstance(w, Native):
+        h = ex.natives.get(w.rty, {}).get('Write::flush')
+        if h is None:
+            return ok(UNIT)
+        return h(ex, [Ref(inner, (), True)], callee)
+    name = ex.prog.find_impl_method('flush', ex.rtype(w), 'Write')
+    if name is None:
+        raise Unsupported('no Write::flush for %s' % ex.rtype(w))
+    return ex.call(name, [Ref(inner, (), True)])
 
 
 def bw_get_mut(ex, args, callee):
